@@ -15,6 +15,7 @@ parsed before the handler's lock window (a marker written from a wrapper around 
 import interposer
 interposer.reexec_with_preload()
 
+import json  # noqa: E402
 import os  # noqa: E402
 import resource  # noqa: E402
 import socket  # noqa: E402
@@ -167,6 +168,47 @@ def debug_logging_level(ctx, decoy, port):
         lg.setLevel(logging.CRITICAL)
 
 
+def charset_histories(ctx):
+    """histories on one server: the same bytes under different request charsets, and the same body again.  The byte string is one
+    comment plus a harmless document when read as UTF-8 / Latin-1 and a document with an entity declaration when read as UTF-7
+    (what the body *is* depends on the charset parameter of the request); every request is judged on its own - what was accepted
+    before under another reading, or sent before, gives no licence"""
+    import itertools
+    methods = ["PROPFIND", "PROPPATCH", "REPORT", "MKCOL", "MKCALENDAR"]
+    ctypes = {"utf-8": "application/xml; charset=utf-8", "latin-1": "application/xml; charset=iso-8859-1", "utf-7": "application/xml; charset=utf-7",
+              "none": "application/xml"}
+    orders = [("utf-8", "utf-7"), ("latin-1", "utf-7", "utf-7"), ("none", "utf-8", "utf-7"), ("utf-7", "utf-8", "utf-7"), ("utf-8", "utf-8")]
+    n = 0
+    for method, order in itertools.product(methods, orders if ctx.tier == "thorough" else orders[:3]):
+        with App({"auth": {"type": "none"}, "rights": permissive_rights()}) as app:
+            scenarios.build_store(app, 0)
+            # "-->" and "<!--" and "&" written in UTF-7 shifted form: plain text inside a comment / element text for any ASCII superset
+            poly = ('<!-- +AC0ALQA+- <!DOCTYPE x [<!ENTITY e "expanded">]> +ADwAIQAtAC0- -->' + request_body(method, "+ACY-e;", "")).encode("ascii")
+            for k, cs in enumerate(order):
+                n += 1
+                path = {"MKCOL": "/u/hx%d/" % n, "MKCALENDAR": "/u/hy%d/" % n}.get(method, "/u/cal/")
+                reading = poly.decode("utf-7" if cs == "utf-7" else "utf-8")
+                hostile = "<!ENTITY" in reading.replace(reading[reading.find("<!--"):reading.find("-->") + 3], "", 1)
+                before = dump_store(app)
+                st, hd, text = app.request(method, path, poly, login="u:pw", CONTENT_TYPE=ctypes[cs], HTTP_DEPTH="1")
+                after = dump_store(app)
+                case = {"method": method, "charsets_so_far": list(order[:k + 1]), "status": st, "hostile_in_this_reading": hostile,
+                        "body": poly.decode("ascii")[:200]}
+                ctx.case("history:%s:%s:%s" % (method, cs, st), sample=case, key=["hist", method, order, k], nontrivial=hostile)
+                if hostile:
+                    if st < 400:
+                        ctx.violation("a body that declares an entity under the charset of this request was accepted (status %d) after the same bytes "
+                                      "had been sent under %s" % (st, list(order[:k])), case)
+                    if after != before:
+                        ctx.violation("a hostile body (same bytes sent before under another charset) changed the store", case)
+                    if "expanded" in text:
+                        ctx.violation("an entity was expanded into the response", case)
+                elif st >= 400 and st != 403:
+                    ctx.disagree("the harmless reading of the polyglot body was refused", case, st, "< 400")
+            if "expanded" in json.dumps(dump_store(app)):
+                ctx.violation("the replacement text of an entity was stored", {"method": method, "charsets": list(order)})
+
+
 def run(ctx):
     ctx.extra["rule"] = ("attack grammar (9 entity shapes + nested expansion depth<=12 x fan-out<=10 + quadratic blow-up + 4 DOCTYPE-only shapes) x "
                          "{PROPFIND, PROPPATCH, REPORT, MKCOL, MKCALENDAR} x {utf-8, utf-16, latin-1, undeclared}; non-trivial = the body "
@@ -273,6 +315,7 @@ def run(ctx):
                         pass
         ApplicationBase._read_xml_request_body = orig_read
         debug_logging_level(ctx, decoy, port)
+        charset_histories(ctx)
     finally:
         ApplicationBase._read_xml_request_body = orig_read
         rec.close()
